@@ -242,7 +242,7 @@ func runMsgs(seed int64, histories, steps int, out *Emitter) {
 			out.Count("msgs.table", routable)
 		}
 		// (b) oracle feeds
-		names := []string{"jklprice", "feed-a", "feed-b", "", "x/y"}
+		names := []string{"jklprice", "feed-a", "feed-b", "", "x/y", " jklprice", "jklprice ", "JKLPRICE", "feed-a\t", "\nfeed-b"}
 		for i := 0; i < steps; i++ {
 			if r.Intn(8) == 0 {
 				c.NextBlock(6 * time.Second)
